@@ -1,6 +1,7 @@
 import BitbybitModel.Symbolic.NfSound
 import BitbybitModel.Symbolic.Ctx
 import BitbybitModel.Props.Examples
+import BitbybitModel.Props.Program
 /-!
 # TV — translation validation: the accessor theorems hold for every emitted body the normaliser accepts
 
@@ -146,6 +147,51 @@ theorem setter_validated_oob (Γ : CustomEnv) (chk : Bool) (B : Base) (fd : Fiel
 theorem validated_profile_independent {ctx : Ctx} {a m : Expr} (heq : bodiesEquiv ctx a m = true) (w : World) (ρ : Env)
     (hρ : EnvOk w ctx ρ) (harg : Nf.ArgOk w ctx) {v : Val} (h : eval w.Γ true ρ m = .ok v) : eval w.Γ false ρ a = .ok v :=
   transfer_ok heq w false true ρ hρ harg h
+
+end Bb.TV
+
+namespace Bb.TV
+open Bb Bb.Nf
+
+/-! ### declaration level: accepted declaration + validated emitted body ⇒ the register specification
+
+The only hypotheses left are user-visible ones: the declaration was accepted by the (model of the) macro, the field is
+one of its fields, its list names no bit twice (C04's own exclusion / KF1), the index is in range, the argument has
+the field's type – and the run's finding that the body the real macro emitted is equivalent to the model's. -/
+
+/-- for every accepted declaration, a validated emitted getter returns the gathered bits -/
+theorem accepted_getter_validated (resolve : List String → Nat) (types : Nat → Option CustomInfo) (d : DeclSyn) (p : Program)
+    (h : expand resolve types d = .ok p) (fd : FieldDef) (hfd : fd ∈ p.fields)
+    (hd : pairwiseDisjoint fd.ranges = true)
+    (Γ : CustomEnv) (chk : Bool) (raw i : Nat) (hraw : raw < 2 ^ p.base.internal)
+    (hi : ∀ c s, fd.array = some (c, s) → i < c)
+    (a : Expr) (hval : ∀ m, getterBody p.base fd = some m → bodiesEquiv (getterCtx p.base) a m = true) :
+    ResEq (eval Γ chk { raw := .int p.base.W raw, index := .int .usize i } a)
+      (getterResult Γ fd (gather raw (offOf i fd.stride) fd.ranges 0)) := by
+  obtain ⟨hB, hall⟩ := C09.expand_fields_ok resolve types d p h
+  have hwide := C16.wide_of_disjoint p.base fd hB (hall fd hfd) hd
+  obtain ⟨m, hm, _⟩ := eval_getterBody Γ chk p.base fd raw i hB (hall fd hfd) hwide hi
+  exact getter_validated Γ chk p.base fd raw i a m hB (hall fd hfd) hwide hraw hi hm (hval m hm)
+
+/-- for every accepted declaration, a validated emitted `with_` / `set_` body yields exactly the reference write, which
+    fits the storage (and the exposed width when the register did) -/
+theorem accepted_setter_validated (resolve : List String → Nat) (types : Nat → Option CustomInfo) (d : DeclSyn) (p : Program)
+    (h : expand resolve types d = .ok p) (fd : FieldDef) (hfd : fd ∈ p.fields)
+    (hd : pairwiseDisjoint fd.ranges = true)
+    (Γ : CustomEnv) (chk : Bool) (raw i : Nat) (fv : Val) (v : Nat) (hraw : raw < 2 ^ p.base.internal)
+    (hi : ∀ c s, fd.array = some (c, s) → i < c) (harg : Bb.ArgOk Γ fd fv v)
+    (a : Expr) (hval : ∀ m, setterBody p.base fd = some m → bodiesEquiv (setterCtx p.base fd) a m = true) :
+    eval Γ chk { raw := .int p.base.W raw, index := .int .usize i, fieldValue := fv } a
+        = .ok (.int p.base.W (writeSpec p.base.internal raw v (offOf i fd.stride) fd.ranges)) ∧
+      writeSpec p.base.internal raw v (offOf i fd.stride) fd.ranges < 2 ^ p.base.internal ∧
+      (raw < 2 ^ p.base.exposed → writeSpec p.base.internal raw v (offOf i fd.stride) fd.ranges < 2 ^ p.base.exposed) := by
+  obtain ⟨hB, hall⟩ := C09.expand_fields_ok resolve types d p h
+  have hwide := C16.wide_of_disjoint p.base fd hB (hall fd hfd) hd
+  obtain ⟨m, hm, _⟩ := eval_setterBody Γ chk p.base fd raw i fv v hB (hall fd hfd) hwide hraw hi harg
+  obtain ⟨x, hev, hx, hsp, hex, _⟩ := setter_validated Γ chk p.base fd raw i fv v a m hB (hall fd hfd) hwide hraw hi harg hm (hval m hm)
+  have hxs := hsp hd
+  subst hxs
+  exact ⟨hev, hx, hex⟩
 
 end Bb.TV
 
